@@ -103,6 +103,26 @@ def gen_cases(rng, tier):
             if rng.chance(0.3):
                 lines.append('chk.report')
         cases.append({'name': 'checkup-%s-%d' % (kind, i), 'lines': lines, 'meta': meta})
+    # two check-ups with different names driven side by side (`sib.` = the second object): objects share nothing
+    for i in range(60 if tier == 'quick' else 3000):
+        lines = []
+        for pre in ('', 'sib.'):
+            kind = rng.choice(KINDS)
+            t, e = _thresholds(rng)
+            lines.append('%schk.new %s %s %s' % (pre, kind, D(t), D(e)))
+        for _ in range(rng.int(6, 24)):
+            pre = rng.choice(['', 'sib.'])
+            r = rng.below(10)
+            if r < 3:
+                lines += [pre + 'chk.timeout', pre + 'chk.report']
+                if rng.chance(0.5):
+                    q = 'sib.' if pre == '' else ''
+                    lines += [q + 'chk.timeout', q + 'chk.report', pre + 'chk.report']
+            elif r < 5:
+                lines.append(pre + 'chk.report')
+            else:
+                lines.append(pre + 'chk.eval ' + D(rng.gauss() * 10))
+        cases.append({'name': 'two-checkups-%d' % i, 'lines': lines, 'meta': {'kind': 'pair'}})
     # status algebra: all pairs and triples, every run (exhaustive)
     lines = []
     for a in range(4):
@@ -186,10 +206,19 @@ def oracle(case, out, stats):
     meta = case.get('meta', {})
     expect = None   # expected (st, msg, info) of the stored report
     kind = t = e = None
+    other = (None, None, None, None)      # the same four for the object not addressed by the current line (`sib.` = second object)
+    cur_slot = 0
     for line, o in zip(case['lines'], out):
         tk = line.split()
         op = tk[0]
         stats[op] = stats.get(op, 0) + 1
+        slot = 1 if op.startswith('sib.') else 0
+        if slot:
+            op = op[4:]
+            stats['sibling_object_ops'] = stats.get('sibling_object_ops', 0) + 1
+        if op.startswith('chk.') and slot != cur_slot:      # switch the tracked object
+            (expect, kind, t, e), other = other, (expect, kind, t, e)
+            cur_slot = slot
 
         def bad(kind_, detail, **fields):
             fails.append({'kind': kind_, 'detail': '%s -> %s : %s' % (line, o, detail), 'fields': fields})
